@@ -57,8 +57,8 @@ def fn_text(f, name, vis=""):
             params.append(f"p{j}: {TY[t]}")
     if "array" in f["params"]:
         gens.append("const N: usize")
-    ret = {"unit": "", "owned": " -> String", "borrow-deps": " -> &'a str", "borrow-arg": " -> &'a str", "generic": f" -> {f['gname']}1"}[f["ret"]]
-    body = {"unit": "", "owned": "String::new()", "borrow-deps": "deps.name()", "borrow-arg": "p1", "generic": "p1"}[f["ret"]]
+    ret = {"unit": "", "owned": " -> String", "borrow-deps": " -> &'a str", "borrow-arg": " -> &'a str", "borrow-arg-elided": " -> &str", "generic": f" -> {f['gname']}1"}[f["ret"]]
+    body = {"unit": "", "owned": "String::new()", "borrow-deps": "deps.name()", "borrow-arg": "p1", "borrow-arg-elided": "p1", "generic": "p1"}[f["ret"]]
     q = {"plain": "", "unsafe": "unsafe ", "extern": 'extern "C" '}[f["qual"]]
     a = "async " if f["async"] else ""
     g = f"<{', '.join(gens)}>" if gens else ""
@@ -70,7 +70,7 @@ def ptr_type(f, with_recv, recv_ty):
     """the fn-pointer type of the ORIGINAL function seen as (receiver, arguments..) -> return"""
     d = f["deps"]
     lts = []
-    uses_life = d["pass"] == "reflife" or "reflife" in f["params"] or f["ret"] in ("borrow-deps", "borrow-arg")
+    uses_life = d["pass"] == "reflife" or "reflife" in f["params"] or f["ret"] in ("borrow-deps", "borrow-arg", "borrow-arg-elided")
     if uses_life:
         lts.append("'a")
     if f["lwhere"]:
@@ -82,22 +82,24 @@ def ptr_type(f, with_recv, recv_ty):
     for j, t in enumerate(f["params"], start=1):
         if t == "reflife" and f["lwhere"] and j == 2:
             args.append("&'b str")
+        elif j == 1 and f["ret"] == "borrow-arg-elided":
+            args.append("&'a str")        # the elided relation of the original function, written out
         else:
             args.append(PTY[t])
-    ret = {"unit": "", "owned": " -> String", "borrow-deps": " -> &'a str", "borrow-arg": " -> &'a str", "generic": " -> u8"}[f["ret"]]
+    ret = {"unit": "", "owned": " -> String", "borrow-deps": " -> &'a str", "borrow-arg": " -> &'a str", "borrow-arg-elided": " -> &'a str", "generic": " -> u8"}[f["ret"]]
     q = {"plain": "", "unsafe": "unsafe ", "extern": 'extern "C" '}[f["qual"]]
     return f"{q}fn({', '.join(args)}){ret}"
 
 
 def witness_lts(f):
     d = f["deps"]
-    uses_life = d["pass"] == "reflife" or "reflife" in f["params"] or f["ret"] in ("borrow-deps", "borrow-arg")
+    uses_life = d["pass"] == "reflife" or "reflife" in f["params"] or f["ret"] in ("borrow-deps", "borrow-arg", "borrow-arg-elided")
     lts = (["'a"] if uses_life else []) + (["'b: 'a"] if f["lwhere"] else [])
     return f"<{', '.join(lts)}>" if lts else ""
 
 
 def rty(f):
-    return {"unit": "()", "owned": "String", "borrow-deps": "&'a str", "borrow-arg": "&'a str", "generic": "u8"}[f["ret"]]
+    return {"unit": "()", "owned": "String", "borrow-deps": "&'a str", "borrow-arg": "&'a str", "borrow-arg-elided": "&'a str", "generic": "u8"}[f["ret"]]
 
 
 def witness(f, fpath, tpath, recv_ty, recv_mk, k):
